@@ -199,3 +199,9 @@ Ltac norm_pow :=
          end.
 Ltac list_eq := repeat (apply (f_equal2 (@cons Z)); [try lia|]); try reflexivity.
 
+Lemma nth_firstn_lt : forall (n i : nat) (l : list Z) d, (i < n)%nat -> nth i (firstn n l) d = nth i l d.
+Proof.
+  induction n as [|n IH]; intros i l d Hi; [lia|].
+  destruct l as [|b r]; [destruct i; reflexivity|].
+  destruct i as [|i]; cbn [firstn nth]; [reflexivity|]. apply IH. lia.
+Qed.
